@@ -538,6 +538,12 @@ def batched_special(R: Runner, rng, kind, special, n):
                     break
         c = make_case(rng, kind, n, gen=gen, flat=False)
         if "grid" in base:
+            # every row shares the base grid: a row whose own coalescent time falls on it is the 'coal-on-grid' special
+            # (two admissible one-sided values), not the special under test
+            for _try in range(50):
+                if gen is not None or not any(gp in c["coal"] for gp in base["grid"]):
+                    break
+                c = make_case(rng, kind, n, gen=None, flat=False)
             c["grid"] = base["grid"]
             c["thetas"] = [G.pow2(rng) for _ in base["thetas"]]
             for i in range(1, len(c["thetas"])):
@@ -566,9 +572,11 @@ def batched_special(R: Runner, rng, kind, special, n):
                 while c["thetas"][i] == c["thetas"][i - 1]:
                     c["thetas"][i] = G.pow2(rng)
         base = dict(base, grid=grid)
-    # the non-special rows must be clear of the special situations
+    # the non-special rows must be clear of the special situations (and the special row of every OTHER special)
     for s, c in enumerate(rows):
         if s == s0:
+            if special != "coal-on-grid" and "grid" in c and any(gp in c["coal"] for gp in c["grid"]):
+                return
             continue
         if "grid" in c and any(gp in c["coal"] for gp in c["grid"]):
             return
